@@ -247,7 +247,15 @@ func ConnectAndAuthenticateWithConfig(ctx context.Context, config *ClientConfig)
 
 		// Perform authentication handshake
 		if config.Security != nil {
-			auth := security.NewAuthenticator(config.Security, client.stream)
+			// The handshake writes per-connection state into its config
+			// (NewAuthenticator stores this connection's ephemeral ECDH public
+			// key there), so give every connection its own shallow copy: callers
+			// share one SecurityConfig across concurrent connections, and with the
+			// shared struct they race on -- and clobber each other's -- key, which
+			// makes the other connection's handshake fail. Same rationale as
+			// server.ServeConn; the session cache pointer stays shared.
+			sec := *config.Security
+			auth := security.NewAuthenticator(&sec, client.stream)
 			negotiation, err := auth.ClientHandshake(ctx)
 
 			// Check if this is a session resumption error
